@@ -2,6 +2,7 @@ package rules
 
 import (
 	"go/ast"
+	"go/token"
 	"go/types"
 	"golang.org/x/tools/go/ssa"
 	"sort"
@@ -146,6 +147,126 @@ func roleFindingsUncached(p *Program) ([]roleFinding, int) {
 						results[rs.At(i)] = true
 					}
 				}
+				// (T)(V)(W) what a function builds is what it returns
+				{
+					var sigT *types.Signature
+					if fo, isF := info.Defs[fd.Name].(*types.Func); isF {
+						sigT = fo.Type().(*types.Signature)
+					}
+					// accumulators: v = append(v, …) inside a loop
+					accs := map[types.Object]bool{}
+					accEnd := map[types.Object]token.Pos{} // end of the (last) loop that appends to the accumulator
+					assigned := map[types.Object]bool{}
+					var walk func(n ast.Node, inLoop bool)
+					walk = func(n ast.Node, inLoop bool) {
+						ast.Inspect(n, func(m ast.Node) bool {
+							switch y := m.(type) {
+							case *ast.ForStmt:
+								if m != n {
+									walk(y.Body, true)
+									return false
+								}
+							case *ast.RangeStmt:
+								if m != n {
+									walk(y.Body, true)
+									return false
+								}
+							case *ast.AssignStmt:
+								for i, l := range y.Lhs {
+									id, isI := l.(*ast.Ident)
+									if !isI {
+										continue
+									}
+									o := info.ObjectOf(id)
+									if o == nil {
+										continue
+									}
+									assigned[o] = true
+									if inLoop && len(y.Rhs) == len(y.Lhs) {
+										if c, isC := y.Rhs[i].(*ast.CallExpr); isC && len(c.Args) >= 1 {
+											if fi, isFI := c.Fun.(*ast.Ident); isFI && fi.Name == "append" {
+												if ai, isAI := c.Args[0].(*ast.Ident); isAI && info.ObjectOf(ai) == o {
+													accs[o] = true
+													if n.End() > accEnd[o] {
+														accEnd[o] = n.End()
+													}
+												}
+											}
+										}
+									}
+								}
+							}
+							return true
+						})
+					}
+					walk(fd.Body, false)
+					if sigT != nil && sigT.Results().Len() > 0 {
+						named := map[types.Object]int{}
+						for i := 0; i < sigT.Results().Len(); i++ {
+							if sigT.Results().At(i).Name() != "" && sigT.Results().At(i).Name() != "_" {
+								named[sigT.Results().At(i)] = i
+							}
+						}
+						errIdx := -1
+						for i := 0; i < sigT.Results().Len(); i++ {
+							if types.Identical(sigT.Results().At(i).Type(), types.Universe.Lookup("error").Type()) {
+								errIdx = i
+							}
+						}
+						ast.Inspect(fd.Body, func(m ast.Node) bool {
+							if _, isLit := m.(*ast.FuncLit); isLit {
+								return false // returns of closures are not this function's
+							}
+							ret, isR := m.(*ast.ReturnStmt)
+							if !isR || len(ret.Results) != sigT.Results().Len() {
+								return true
+							}
+							errNil := errIdx >= 0
+							if errIdx >= 0 {
+								if id, isI := ret.Results[errIdx].(*ast.Ident); !isI || id.Name != "nil" {
+									errNil = false
+								}
+							}
+							for i, e := range ret.Results {
+								id, isI := e.(*ast.Ident)
+								if !isI || id.Name == "nil" {
+									continue
+								}
+								ro := info.ObjectOf(id)
+								rt := sigT.Results().At(i).Type()
+								pos := p.Fset.Position(e.Pos())
+								where := rel + ":" + itoaN(pos.Line)
+								// (T) exactly one accumulator of this result's type: that is what is returned
+								var acc types.Object
+								nAcc := 0
+								for a := range accs {
+									if types.Identical(a.Type(), rt) {
+										acc = a
+										nAcc++
+									}
+								}
+								if nAcc == 1 && ro != acc && ret.Pos() > accEnd[acc] {
+									if _, isSl := rt.Underlying().(*types.Slice); isSl {
+										out = append(out, roleFinding{where, fd.Name.Name + "→return[" + itoaN(i) + "]", "the function collects its result in " + acc.Name() + " but returns " + id.Name, rel})
+									}
+								}
+								// (V) a named result that the function assigns is what is returned at its position
+								for no, ni := range named {
+									if ni == i && assigned[no] && ro != no && !(errIdx == i) && types.Identical(no.Type(), rt) {
+										if _, isN := named[ro]; !isN {
+											out = append(out, roleFinding{where, fd.Name.Name + "→return[" + itoaN(i) + "]", "the function assigns its named result " + no.Name() + " but returns " + id.Name + " in its place", rel})
+										}
+									}
+								}
+								// (W) a named result that is never assigned is returned together with a nil error
+								if ni, isN := named[ro]; isN && ni == i && !assigned[ro] && errNil && errIdx != i {
+									out = append(out, roleFinding{where, fd.Name.Name + "→return[" + itoaN(i) + "]", "named result " + id.Name + " is never assigned, yet it is returned with a nil error: the caller gets a zero value as a success", rel})
+								}
+							}
+							return true
+						})
+					}
+				}
 				sameVar := func(a, b ast.Expr) bool {
 					ia, okA := a.(*ast.Ident)
 					ib, okB := b.(*ast.Ident)
@@ -194,6 +315,16 @@ func roleFindingsUncached(p *Program) ([]roleFinding, int) {
 							out = append(out, roleFinding{rel + ":" + itoaN(pos.Line), fd.Name.Name + "→error-test#" + itoaN(ord["errnext"]-1), "the call just before assigns its error to " + last.Name + ", but the test that follows looks at " + ci.Name + ": a failure of that call is not noticed here", rel})
 						}
 					case *ast.AssignStmt:
+						// (U) x = x
+						if x.Tok.String() == "=" && len(x.Lhs) == len(x.Rhs) {
+							for i := range x.Lhs {
+								if sameVar(x.Lhs[i], x.Rhs[i]) {
+									pos := p.Fset.Position(x.Pos())
+									ord["selfasg"]++
+									out = append(out, roleFinding{rel + ":" + itoaN(pos.Line), fd.Name.Name + "→self-assignment#" + itoaN(ord["selfasg"]-1), "a variable is assigned to itself: the value that was meant to be kept is lost", rel})
+								}
+							}
+						}
 						// (E) x = append(y, …): the slice that grows is the one that is kept
 						if len(x.Lhs) == 1 && len(x.Rhs) == 1 && x.Tok.String() == "=" {
 							if c, isC := x.Rhs[0].(*ast.CallExpr); isC && len(c.Args) >= 1 {
